@@ -4,9 +4,11 @@
    directions, result built on a copy of the source) and interleaved queries ([prog]); [exec q] is the choice tree of
    the history: one [Draw 2] per zip_buffer (random_bit) and one [Draw stride] per zip_buffer_with_stride.
    [Ex] is the exact expectation (each draw uniform over its arity, draws independent).
-   Statements only; proofs in CqProofs.v, CqUnbiased.v, CqDraws.v. *)
+   The same statements are given for flat operation scripts over registers ([fop], [frun]: what the runner executes),
+   where one sketch may be merged into several others or several times into the same one (merge DAGs, copies,
+   rvalue merges).  Statements only; proofs in CqProofs.v, CqUnbiased.v, CqDraws.v, CqScripts.v. *)
 From Coq Require Import ZArith List Bool Lia Permutation Sorted QArith.
-From DS Require Import RunnerLib SortedView CqDefs CqProofs CqView CqUnbiased CqDraws Regression_cq.
+From DS Require Import RunnerLib SortedView CqDefs CqProofs CqView CqUnbiased CqDraws CqScripts Regression_cq.
 Import ListNotations.
 Local Open Scope Z_scope.
 
@@ -66,6 +68,38 @@ Theorem C08_cq_replay_consumes_draws : forall q cs s rest, replay (exec q) cs = 
   exists ar, path (exec q) ar s /\ length cs = (length ar + length rest)%nat.
 Proof. intros q cs s rest. apply replay_path. Qed.
 
+(* ---------- flat scripts over registers (merge DAGs) ---------- *)
+(* every register of every state a script reaches is a reachable sketch, related to the deterministic ghost log:
+   all C07 statements apply to it *)
+Theorem C08_cq_script_states_reachable : forall ops st r s, leaf (frun ops []) st -> reg_get st r = Some s ->
+  exists l, reg_get (lrun ops []) r = Some l /\ reach s l.
+Proof. exact script_states_reachable. Qed.
+
+(* every script, every register: the weighted count of retained items satisfying p has expectation = the number of
+   items satisfying p that flowed into the register *)
+Theorem C08_cq_script_estimator_unbiased : forall p ops r,
+  Mart (fun st => vec p st r) (frun ops []) (lvec p (lrun ops []) r).
+Proof. exact script_unbiased. Qed.
+
+Theorem C08_cq_script_rank_unbiased : forall x incl ops r,
+  (Ex (fmap (rank_reg x incl r) (frun ops [])) ==
+   inject_Z (match reg_get (lrun ops []) r with Some l => cnt (below Z Z.ltb x incl) l | None => 0 end))%Q.
+Proof. exact script_rank_unbiased. Qed.
+
+Theorem C08_cq_script_draws_independent_of_outcomes : forall ops ar1 st1 ar2 st2,
+  path (frun ops []) ar1 st1 -> path (frun ops []) ar2 st2 -> ar1 = ar2.
+Proof. exact script_draws_independent. Qed.
+
+(* non-vacuity of the script statements: b is merged TWICE into a (k = 2, 9 and 5 items) and then a into c *)
+Example C08_cq_script_nonvacuous :
+  let ops := [FNew 0 2; FNew 1 2; FNew 2 4] ++ map (FUpd 0) (range 0 9) ++ map (FUpd 1) (range 20 5) ++
+             [FMerge 0 1; FMerge 0 1; FUpd 2 7; FMerge 2 0] in
+  reg_get (lrun ops []) 2 = Some (7 :: range 0 9 ++ range 20 5 ++ range 20 5) /\
+  (Ex (fmap (rank_reg 20 true 2) (frun ops [])) == inject_Z 12)%Q.
+Proof.
+  cbv zeta. split; [reflexivity|]. rewrite script_rank_unbiased. reflexivity.
+Qed.
+
 (* non-vacuity: a history with ten coins and one stride-4 draw (2^10 * 4 outcomes) *)
 Example C08_cq_nonvacuous :
   wf W1 /\
@@ -89,3 +123,7 @@ Print Assumptions C08_cq_rank_unbiased.
 Print Assumptions C08_cq_draws_independent_of_outcomes.
 Print Assumptions C08_cq_draws_independent_of_items.
 Print Assumptions C08_cq_replay_consumes_draws.
+Print Assumptions C08_cq_script_states_reachable.
+Print Assumptions C08_cq_script_estimator_unbiased.
+Print Assumptions C08_cq_script_rank_unbiased.
+Print Assumptions C08_cq_script_draws_independent_of_outcomes.
